@@ -34,7 +34,7 @@ def setup_worker(ctx):
 
 
 def gen_case(rng, idx, tier):
-    if rng.random() < 0.15:
+    if rng.random() < 0.25:
         from rv import bcast
         return bcast.gen(rng, tier)
     cones = ['L', 'LQ', 'LQX', 'LQX', 'X', 'Q'][int(rng.integers(6))]
